@@ -45,7 +45,7 @@ type gobj struct {
 func gen(t *rapid.T) Case {
 	cfg := pat.GenCfg(t, true)
 	c := Case{Icpt: cfg.IcptName, Variant: rapid.IntRange(0, 11).Draw(t, "variant")}
-	c.Pool = pat.GenPool(t, cfg, rapid.IntRange(3, 10).Draw(t, "npool"))
+	c.Pool = pat.GenPool(t, cfg, rapid.IntRange(3, rig.Up(10)).Draw(t, "npool"))
 	objs := []gobj{{}}
 	var handled []string
 	withPrefix := func(acc string) []string {
@@ -66,7 +66,7 @@ func gen(t *rapid.T) Case {
 			handled = append(handled, p)
 		}
 	}
-	for i, n := 0, rapid.IntRange(2, 22).Draw(t, "nsteps"); i < n; i++ {
+	for i, n := 0, rapid.IntRange(2, rig.Up(22)).Draw(t, "nsteps"); i < n; i++ {
 		k := rapid.IntRange(0, 19).Draw(t, "kind")
 		oi := rapid.IntRange(0, len(objs)-1).Draw(t, "obj")
 		if rapid.IntRange(0, 2).Draw(t, "preferRecent") == 0 {
